@@ -60,6 +60,9 @@ def install(w):
         return d
 
     def arg_get(ex, st, obj, key: str, hint=None) -> Val:
+        if isinstance(obj.py, E):
+            # a module-level constant tree (e.g. transforms.SUCCESS_NOP): read from the real object
+            return real_const(obj.py.args.get(key))
         d = args_of(ex, st, obj)
         did = V.rid(d.t)
         k = mks(key)
@@ -68,6 +71,26 @@ def install(w):
         return v
 
     w.sg_arg_get = arg_get
+    _known = set()
+
+    def real_const(x):
+        v = w.const(x)
+        if isinstance(x, E) and id(x) not in _known:
+            _known.add(id(x))
+            w.axioms.append(CLS(V.rid(v.t)) == w.classes.cid(type(x)))
+        return v
+
+    w.real_const = real_const
+    _orig_const = w.const
+
+    def const_with_class(x):
+        v = _orig_const(x)
+        if isinstance(x, E) and id(x) not in _known:
+            _known.add(id(x))
+            w.axioms.append(CLS(V.rid(v.t)) == w.classes.cid(type(x)))
+        return v
+
+    w.const = const_with_class
 
     @prop("this")
     def _this(ex, st, obj, node):
@@ -187,15 +210,26 @@ def install(w):
     DM = z3.ArraySort(I, z3.ArraySort(V, V))
     find_fn = {}
 
+    w.ghost_sorts["$treever"] = I
+
+    def treever(ex, st, node_val):
+        """version of the node heap: tree searches and generated SQL depend on (node, version) -- every write to a
+        dict / args / parent field moves to a new version (see Executor.bump_treever); constant trees are version 0"""
+        if isinstance(node_val.py, E):
+            return z3.IntVal(0)
+        return ex.gh(st, "$treever")
+
     def find_like(tag, ex, st, recv, classes, bfs):
+        if isinstance(recv.py, E) and tag == "find":
+            return real_const(recv.py.find(*classes, bfs=bfs))
         """uninterpreted search result with the type facts; depends on the node, the class set, the order and the
         current args contents (so a mutation of the tree invalidates earlier results)"""
         key = (tag, tuple(w.classes.cid(c) for c in classes), bfs)
         f = find_fn.get(key)
         if f is None:
-            f = z3.Function(f"sg_{tag}_{len(find_fn)}", I, ARR, DM, V)
+            f = z3.Function(f"sg_{tag}_{len(find_fn)}", I, I, V)
             find_fn[key] = f
-        r = f(V.rid(recv.t), st.arr("args"), st.arr("$dmap"))
+        r = f(V.rid(recv.t), treever(ex, st, recv))
         ok = z3.Or(V.is_none(r), z3.And(V.is_r(r), w.classes.isa(CLS(V.rid(r)), tuple(classes) if len(classes) > 1 else classes[0])))
         st.assume(ok)
         hint = Opt(classes[0]) if len(classes) == 1 else Opt(E)
@@ -217,6 +251,8 @@ def install(w):
             if b is _NO:
                 raise Unsupported("find(bfs=<non-literal>)", node)
             bfs = bool(b)
+        if isinstance(recv.py, E):
+            return real_const(recv.py.find(*classes, bfs=bfs))
         ex.as_ref(st, recv, node, "find receiver")
         r = find_like("find", ex, st, recv, classes, bfs)
         # a node is found in its own tree first: if the receiver itself matches, it is the result (pre-order/BFS root first)
@@ -233,8 +269,8 @@ def install(w):
         for c in args[1:]:
             classes.extend(ex._classes_of(c, node))
         ex.as_ref(st, recv, node, "find_ancestor receiver")
-        f = z3.Function("sg_find_ancestor_" + "_".join(str(w.classes.cid(c)) for c in classes), I, ARR, V)
-        r = f(V.rid(recv.t), st.arr("parent"))
+        f = z3.Function("sg_find_ancestor_" + "_".join(str(w.classes.cid(c)) for c in classes), I, I, V)
+        r = f(V.rid(recv.t), treever(ex, st, recv))
         st.assume(z3.Or(V.is_none(r), z3.And(V.is_r(r), w.classes.isa(CLS(V.rid(r)), tuple(classes) if len(classes) > 1 else classes[0]))))
         return Val(r, Opt(classes[0]) if len(classes) == 1 else Opt(E))
 
@@ -308,6 +344,7 @@ def install(w):
             raise Unsupported("Expression.set with index", node)
         d = args_of(ex, st, recv)
         did = V.rid(d.t)
+        ex.bump_treever(st)
         isnone = V.is_none(val.t)
         has, dm = st.arr("$dhas"), st.arr("$dmap")
         st.heap["$dhas"] = z3.Store(has, did, z3.Store(has[did], key.t, z3.Not(isnone)))
@@ -366,7 +403,7 @@ def install(w):
 
     H["sqlglot.expressions.Expression.copy"] = m_copy
 
-    SQL_OF = z3.Function("sg_sql_of", I, S, ARR, DM, S)
+    SQL_OF = z3.Function("sg_sql_of", I, S, I, S)
 
     def m_sql(ex, st, args, kw, node):
         ex.trusted_used.add(A)
@@ -374,9 +411,26 @@ def install(w):
         oid = ex.as_ref(st, recv, node)
         dialect = kw.get("dialect", args[1] if len(args) > 1 else w.const(""))
         d = V.sval(dialect.t) if dialect.ty is str else z3.StringVal("?")
-        return Val(mks(SQL_OF(oid, d, st.arr("args"), st.arr("$dmap"))), str)
+        out = SQL_OF(oid, d, treever(ex, st, recv))
+        sql_facts(ex, st, recv, out)
+        return Val(mks(out), str)
 
     H["sqlglot.expressions.Expression.sql"] = m_sql
+
+    def sql_facts(ex, st, node_val, text):
+        """A-SQLGLOT 5 / A-DUCK: the generated text of a statement is an INSERT/UPDATE/DELETE exactly when key_command says so,
+        and is COMMIT / ROLLBACK text only for such statements"""
+        from pyvc.spec import eval_nested
+
+        from .externs_duck import DUCK_DML, DUCK_TXN_END
+
+        kc = eval_nested(ex, st, "keycmd(e)", {"e": node_val})
+        k = V.sval(kc.t)
+        is_dml = z3.Or(k == z3.StringVal("INSERT"), k == z3.StringVal("UPDATE"), k == z3.StringVal("DELETE"))
+        st.assume(DUCK_DML(text) == is_dml)
+        st.assume(z3.Implies(DUCK_TXN_END(text), z3.Or(k == z3.StringVal("COMMIT"), k == z3.StringVal("ROLLBACK"))))
+
+    w.sql_facts = sql_facts
 
     def parse_one(ex, st, args, kw, node):
         ex.trusted_used.add(A)
@@ -533,4 +587,6 @@ def install(w):
     @sf("sql_of")
     def _sql_of(ex, st, args):
         d = V.sval(args[1].t)
-        return Val(mks(SQL_OF(V.rid(args[0].t), d, st.arr("args"), st.arr("$dmap"))), str)
+        out = SQL_OF(V.rid(args[0].t), d, treever(ex, st, args[0]))
+        sql_facts(ex, st, args[0], out)
+        return Val(mks(out), str)
